@@ -153,6 +153,7 @@ type nodeCfg struct {
 	ip       string
 	keyType  int
 	noTracer bool
+	tee      func(mem EventTracer) EventTracer
 }
 
 // nodeOffset returns the sub-microsecond residue reserved for periodic timers of node idx.
@@ -179,7 +180,11 @@ func (s *sim) newNode(name string, priv crypto.PrivKey, cfg nodeCfg) (*simNode, 
 	n.ctx, n.cancel = context.WithCancel(context.Background())
 	opts := []Option{WithLogger(discardLogger), WithRPCLogger(discardLogger)}
 	if !cfg.noTracer {
-		opts = append(opts, WithEventTracer(memTracer{n}), WithRawTracer(rawTap{n}))
+		var et EventTracer = memTracer{n}
+		if cfg.tee != nil {
+			et = cfg.tee(et)
+		}
+		opts = append(opts, WithEventTracer(et), WithRawTracer(rawTap{n}))
 	}
 	opts = append(opts, cfg.opts...)
 	var err error
